@@ -38,6 +38,9 @@
 //! assert_eq!(controller.limit(), 5); // 11 * 0.5 = 5.5 -> 5
 //! ```
 
+#[cfg(feature = "verif-hooks")]
+use crate::verif::atomic::{AtomicUsize, Ordering};
+#[cfg(not(feature = "verif-hooks"))]
 use std::sync::atomic::{AtomicUsize, Ordering};
 
 /// Configuration for an AIMD controller.
